@@ -21,10 +21,10 @@ var (
 	InvalidUUIDs = []string{"550e8400-e29b-41d4-a716-44665544000", "550e8400-e29b-41d4-a716-44665544000g", "550e8400e29b41d4a716-446655440000x", "abc",
 		"urx:uuid:550e8400-e29b-41d4-a716-446655440000", "urn-uuid:550e8400-e29b-41d4-a716-446655440000", "urn:uuid:550e8400-e29b-41d4-a716-44665544000g", "{550e8400-e29b-41d4-a716-446655440000]",
 		"(550e8400-e29b-41d4-a716-446655440000)", "550e8400e29b41d4a71644665544000g", "550e8400-e29b-41d4-a716_446655440000"}
-	ValidDates   = []string{"2006-01-02", "2024-02-29", "1999-12-31"}
-	InvalidDates = []string{"2006-13-02", "2023-02-29", "2006-1-2", "06-01-02", "2006/01/02", "2006-01-32"}
-	ValidDTs     = []string{"2021-01-02T07:23:12+03:00", "2006-01-02T15:04:05Z", "1999-12-31T23:59:59-11:00"}
-	InvalidDTs   = []string{"2021-01-02 07:23:12", "2021-01-02T25:23:12+03:00", "2021-13-02T07:23:12Z", "2021-01-02T07:23:12", "yesterday"}
+	ValidDates   = []string{"2006-01-02", "2024-02-29", "1999-12-31", "2000-02-29", "2400-02-29", "2023-04-30", "1900-02-28"}
+	InvalidDates = []string{"2006-13-02", "2023-02-29", "2006-1-2", "06-01-02", "2006/01/02", "2006-01-32", "1900-02-29", "2100-02-29", "2200-02-29", "2023-04-31", "2023-06-31", "2024-02-30", "2023-00-10", "2023-01-00"}
+	ValidDTs     = []string{"2021-01-02T07:23:12+03:00", "2006-01-02T15:04:05Z", "1999-12-31T23:59:59-11:00", "2000-02-29T00:00:00Z", "2024-02-29T12:00:00+01:00"}
+	InvalidDTs   = []string{"2021-01-02 07:23:12", "2021-01-02T25:23:12+03:00", "2021-13-02T07:23:12Z", "2021-01-02T07:23:12", "yesterday", "1900-02-29T00:00:00Z", "2100-02-29T12:00:00+01:00", "2023-04-31T10:00:00Z", "2023-02-29T10:00:00Z"}
 )
 
 var words = []string{"", "a", "ab", "abc", "abcd", "hello", "Tom", "x-1", "A1b2C3", "zzzzzzzz", "0123456789"}
@@ -281,7 +281,7 @@ func (g *Gen) extras(n *Node, inObject bool, allowConst bool) {
 func (g *Gen) note(n *Node) {
 	if g.Rng.IntN(4) == 0 {
 		n.Note = pick(g.Rng, []string{"the id", "Name of the product.", "a note, with: punctuation; and (brackets)", "x", "note \"quoted\"", "unicode é note", "{not rules}", "dash - inside",
-			"poza liczbą", "déjà", "ух", "Р", "ok 😅", "日本", "a // b", "\"deprecated\"", "\"C:\\temp\"", "'single'", "`code`", "[brackets]", "(parens)", "<tag>", "50% /* off", "tab\there", "trailing dot."})
+			"poza liczbą", "déjà", "ух", "Р", "ok 😅", "日本", "a // b", "\"deprecated\"", "\"C:\\temp\"", "'single'", "`code`", "[brackets]", "(parens)", "<tag>", "50% /* off", "tab\there", "trailing dot.", "see *", "*starred*", "**", "a * b", "-5 is the lowest value", "- dash first", "--"})
 		if strings.HasPrefix(n.Note, "{") && (n.HasRules || len(n.Rules) > 0) == false {
 			n.Note = "n " + n.Note // a note-only annotation must not begin like a rule object
 		}
